@@ -1,4 +1,5 @@
 import RedisVerif.Model.NMap
+import RedisVerif.Model.HashBytes
 
 /-
   M8 (ring half) — model of consistent-hash placement and selective gossip routing.
@@ -119,6 +120,19 @@ def gossipTargets (r : HashRing) (keyPos sender : Nat) : List Nat :=
 /-- `HashRing::is_responsible` -/
 def isResponsible (r : HashRing) (keyPos node : Nat) : Bool := (getReplicas r keyPos).contains node
 
+/-! ## the positions, as the code computes them
+
+  `DefaultHasher` is one byte-stream hash `sip` (`Model/SipHash.lean`: SipHash-1-3, zero key, in
+  the driver).  The theorems of `Props/C19.lean` hold for an arbitrary `hashV`; instantiated with
+  `vnodePos sip` the run-time hypothesis `PosInjective` becomes a property of `sip` alone. -/
+
+/-- `HashRing::hash_virtual_node(node, i)`: `node.0.hash(h); virtual_index.hash(h)` — the `u64`
+    replica id and the `u32` index, little-endian -/
+def vnodePos (sip : List Nat → Nat) (node i : Nat) : Nat := sip (HB.le64 node ++ HB.le32 i)
+
+/-- `HashRing::hash_key(key)`: `key.hash(h)` — the key's bytes and `0xff` -/
+def keyPosOf (sip : List Nat → Nat) (kb : Nat → List Nat) (k : Nat) : Nat := sip (HB.strBytes kb k)
+
 /-! ## GossipRouter -/
 
 /-- which peer-id arithmetic `GossipRouter::from_config` uses -/
@@ -201,6 +215,161 @@ def queueDeltas (cap : Nat) (ring : HashRing) (router : Option Router) (q : List
         enforceCap cap (q ++ (tbl.filter (fun p => !p.2.isEmpty)).map (fun p => Msg.targeted p.1 p.2))
       else enforceCap cap (q ++ [Msg.broadcast deltas])
     | none => enforceCap cap (q ++ [Msg.broadcast deltas])
+
+/-! ## the remaining public surface of `HashRing` / `GossipRouter` / `GossipState`, and the
+    gossip loops of `production/gossip_manager.rs` (session 3) -/
+
+/-- `HashRing::get_primary` -/
+def getPrimary (r : HashRing) (keyPos : Nat) : Option Nat := (getReplicas r keyPos).head?
+
+/-- `HashRing::is_responsible_with_rf` -/
+def isResponsibleWithRf (r : HashRing) (keyPos node rf : Nat) : Bool :=
+  (getReplicasWithRf r keyPos rf).contains node
+
+/-- `HashRing` with its `version` counter: `add_node` of a member returns early (no increment),
+    `add_node` of a new node and EVERY `remove_node` (also of a non-member) increment it -/
+structure VRing where
+  ring : HashRing
+  version : Nat
+  deriving DecidableEq, Repr, Inhabited
+
+def VRing.add (hashV : Nat → Nat → Nat) (v : VRing) (node : Nat) : VRing :=
+  if v.ring.phys.contains node then v else ⟨addNode hashV v.ring node, v.version + 1⟩
+
+def VRing.remove (v : VRing) (node : Nat) : VRing := ⟨removeNode v.ring node, v.version + 1⟩
+
+def VRing.new (hashV : Nat → Nat → Nat) (nodes : List Nat) (vnodes rf : Nat) : VRing :=
+  nodes.foldl (VRing.add hashV) ⟨empty vnodes rf, 0⟩
+
+/-- `HashRing::get_distribution_stats(sample_keys)`: (total assignments, min per node, max per
+    node) over the nodes that own at least one sample key (mean / std_dev are floats: not modelled) -/
+def distStats (r : HashRing) (keys : List Nat) : Nat × Nat × Nat :=
+  let counts : NMap Nat := keys.foldl (fun m k =>
+    (getReplicas r k).foldl (fun m n => NMap.insertWith (fun new old => old + new) n 1 m) m) []
+  let cs := counts.map (·.2)
+  (cs.foldl (· + ·) 0, cs.foldl min (cs.headD 0), cs.foldl max 0)
+
+/-- `GossipRouter::update_peer` / `remove_peer` -/
+def Router.updatePeer (rt : Router) (id addr : Nat) : Router := { rt with peers := NMap.insert id addr rt.peers }
+def Router.removePeer (rt : Router) (id : Nat) : Router := { rt with peers := NMap.erase id rt.peers }
+
+/-- `GossipRouter::route_with_stats`: the table of `route_deltas` and (total_deltas,
+    total_assignments, assignments_saved, unique_targets) -/
+def routeWithStats (ring : HashRing) (rt : Router) (deltas : List Nat) : NMap (List Nat) × Nat × Nat × Nat × Nat :=
+  let tbl := routeDeltas ring rt deltas
+  let total := (tbl.map (·.2.length)).foldl (· + ·) 0
+  (tbl, deltas.length, total, deltas.length * rt.peers.length - total, tbl.length)
+
+/-- `GossipRouter::calculate_reduction_ratio`: (selective_msgs, broadcast_msgs) (the ratio is a float) -/
+def reductionCounts (ring : HashRing) (rt : Router) (keys : List Nat) : Nat × Nat :=
+  if rt.peers.length = 0 then (0, 0)
+  else ((keys.map fun k => (gossipTargets ring k rt.self).length).foldl (· + ·) 0, keys.length * rt.peers.length)
+
+/-- `AdaptiveReplicationManager::get_rf_for_key`: the override of a hot key, else `base_rf`
+    (which keys are hot is decided by the float-based `HotKeyDetector`: not modelled, the set is input) -/
+def rfForKey (overrides : NMap Nat) (base : Nat) (k : Nat) : Nat := (overrides.get k).getD base
+
+/-- `ReplicationConfig::uses_selective_gossip` -/
+def usesSelectiveGossip (selective partitioned enabled : Bool) : Bool := selective && partitioned && enabled
+
+/-! ### `GossipState` as a state machine (the queue entries carry the epoch at queue time) -/
+
+structure GState where
+  self : Nat
+  epoch : Nat
+  queue : List (Msg × Nat)
+  router : Option Router
+  deriving DecidableEq, Repr
+
+def GState.new (self : Nat) (router : Option Router) : GState := ⟨self, 0, [], router⟩
+
+def capQ {α : Type} (cap : Nat) (q : List α) : List α := q.drop (q.length - cap)
+
+/-- `advance_epoch` (`saturating_add`: the saturation at `u64::MAX` is not modelled) -/
+def GState.advanceEpoch (g : GState) : GState := { g with epoch := g.epoch + 1 }
+
+def GState.setRouter (g : GState) (rt : Router) : GState := { g with router := some rt }
+
+def GState.isSelective (g : GState) : Bool :=
+  match g.router with
+  | some rt => rt.selective
+  | none => false
+
+def GState.queueHeartbeat (cap : Nat) (g : GState) : GState :=
+  { g with queue := capQ cap (g.queue ++ [(Msg.heartbeat, g.epoch)]) }
+
+/-- `queue_deltas_broadcast` -/
+def GState.queueBroadcast (cap : Nat) (g : GState) (deltas : List Nat) : GState :=
+  if deltas.isEmpty then g else { g with queue := capQ cap (g.queue ++ [(Msg.broadcast deltas, g.epoch)]) }
+
+/-- `queue_deltas` -/
+def GState.queueDeltas (cap : Nat) (ring : HashRing) (g : GState) (deltas : List Nat) : GState :=
+  if deltas.isEmpty then g
+  else match g.router with
+    | some rt =>
+      if rt.selective then
+        let tbl := routeDeltas ring rt deltas
+        { g with queue := capQ cap (g.queue ++ (tbl.filter (fun p => !p.2.isEmpty)).map (fun p => (Msg.targeted p.1 p.2, g.epoch))) }
+      else { g with queue := capQ cap (g.queue ++ [(Msg.broadcast deltas, g.epoch)]) }
+    | none => { g with queue := capQ cap (g.queue ++ [(Msg.broadcast deltas, g.epoch)]) }
+
+def GState.drain (g : GState) : List (Msg × Nat) × GState := (g.queue, { g with queue := [] })
+
+/-! ### the gossip loops (`GossipManager::start_gossip_loop`, `start_gossip_loop_with_actor`)
+
+  Each loop builds its OWN address map `replica id ↦ index into config.peers` — a second copy of
+  the arithmetic of `GossipRouter::from_config` — and per tick: `advance_epoch`, `queue_deltas`,
+  `drain_outbound`, then sends a targeted message to `peer_map.get(target)` (silently nothing
+  when the id is not in the map) and a broadcast message to every configured peer. -/
+
+/-- the arithmetic of the loops' address map in the current tree: `if i >= replica_id { i + 2 }
+    else { i + 1 }` — the off-by-one that fix faccb9f removed from `from_config` only -/
+def loopArith : PeerIdArith := .pinned
+
+/-- what `tokio::time::interval(config.gossip_interval())` does at the start of a loop for a
+    configured `gossip_interval_ms` (a plain `u64`): a zero period panics ("`period` must be
+    non-zero"), which kills the loop task before its first tick; `clamped` = the period is
+    `max(gossip_interval_ms, 1)` ms -/
+inductive LoopStart where
+  | ticksEvery (ms : Nat)
+  | panicZeroPeriod
+  deriving DecidableEq, Repr
+
+def loopStart (clamped : Bool) (intervalMs : Nat) : LoopStart :=
+  if clamped then .ticksEvery (max intervalMs 1)
+  else if intervalMs = 0 then .panicZeroPeriod else .ticksEvery intervalMs
+
+/-- the current tree: `gossip_interval()` is `Duration::from_millis(gossip_interval_ms)` as it is -/
+def currentIntervalClamped : Bool := false
+
+/-- to which peer INDEX (position in `config.peers`) each drained message is written -/
+def dispatch (peerMap : NMap Nat) (npeers : Nat) (msgs : List (Msg × Nat)) : List (Nat × Msg × Nat) :=
+  msgs.flatMap fun m =>
+    match m.1 with
+    | .targeted t _ =>
+      match peerMap.get t with
+      | some addr => [(addr, m)]
+      | none => []
+    | _ => (List.range npeers).map fun i => (i, m)
+
+/-- one tick of a gossip loop for the batch `deltas` -/
+def loopTick (a : PeerIdArith) (cap : Nat) (ring : HashRing) (replicaId npeers : Nat) (g : GState)
+    (deltas : List Nat) : List (Nat × Msg × Nat) × GState :=
+  let g1 := (g.advanceEpoch).queueDeltas cap ring deltas
+  let (q, g2) := g1.drain
+  (dispatch (fromConfigPeers a replicaId npeers) npeers q, g2)
+
+/-- the member a configured peer index stands for ("peers are numbered sequentially, self
+    excluded"): the correct arithmetic -/
+def memberOfIndex (replicaId i : Nat) : Nat := peerId .fixed replicaId i
+
+/-- the key positions peer index `i` is handed by the dispatched messages -/
+def deliveredTo (out : List (Nat × Msg × Nat)) (i : Nat) : List Nat :=
+  (out.filter fun e => e.1 == i).flatMap fun e =>
+    match e.2.1 with
+    | .targeted _ ds => ds
+    | .broadcast ds => ds
+    | .heartbeat => []
 
 end Ring
 end RedisVerif
